@@ -55,13 +55,26 @@ theorem batch_get_eq_pointwise (snap buf : List KV) (keys : List Bytes) (k : Byt
     lookup (batchGet snap buf keys) k = if k ∈ keys then unionGet snap buf k else none := by
   rw [lookup_batchGet, unionGet_eq_viewGet]
 
-/-- The loop as it stands in batch_getter.go at the pinned commit (tombstone removed from `bufferValues` inside
-the loop) does NOT have this property: with snapshot {01 ↦ aa}, the key deleted in the buffer and the key list
-[01, 01], the snapshot value comes back.  (The differential finds the same on the real code.) -/
-theorem batch_get_as_is_resurrects_deleted_key :
-    ∃ (snap buf : List KV) (keys : List Bytes) (k : Bytes),
-      lookup (batchGetAsIs snap buf keys) k ≠ if k ∈ keys then unionGet snap buf k else none :=
-  ⟨[([1], [0xaa])], [([1], [])], [[1], [1]], [1], by decide⟩
+/-- The full statement for the loop AS IT STANDS in batch_getter.go at the pinned commit (`batchGetAsIs`: the
+tombstone is removed from `bufferValues` inside the loop).  It is FALSE — see `batch_get_as_is_eq_pointwise_false`;
+what holds is `batch_get_as_is_eq_pointwise_partial`. -/
+def batch_get_as_is_eq_pointwise : Prop :=
+  ∀ (snap buf : List KV) (keys : List Bytes) (k : Bytes),
+    lookup (batchGetAsIs snap buf keys) k = if k ∈ keys then unionGet snap buf k else none
+
+/-- with snapshot {01 ↦ aa}, the key deleted in the buffer and the key list [01, 01], the loop as found hands the
+snapshot value back (the second occurrence no longer finds the tombstone and goes to the snapshot).  The
+differential finds the same on the real code: `sput 01 aa ; del 01 ; pbget 01 01`. -/
+theorem batch_get_as_is_eq_pointwise_false : ¬ batch_get_as_is_eq_pointwise := by
+  intro h
+  exact absurd (h [([1], [0xaa])] [([1], [])] [[1], [1]] [1]) (by decide)
+
+/-- the loop as found is right exactly on key lists without duplicates (there it agrees with the repaired loop) -/
+theorem batch_get_as_is_eq_pointwise_partial (snap buf : List KV) (keys : List Bytes) (hnd : keys.Nodup) (k : Bytes) :
+    lookup (batchGetAsIs snap buf keys) k = if k ∈ keys then unionGet snap buf k else none := by
+  rw [lookup_batchGetAsIs snap buf keys hnd, lookup_batchGet, unionGet_eq_viewGet]
+
+example : ([[1], [1, 0], []] : List Bytes).Nodup := by decide
 
 /-- Read-your-writes in program order.  After ANY sequence of set / delete / staging / release / cleanup on an
 empty buffer, `Get`, `Iter`/`IterReverse` and `BatchGet` answer like the snapshot overlaid with the writes that
